@@ -48,6 +48,7 @@ type JobResult struct {
 	NVars    int
 	VarSorts map[string]string
 	StubNames []string
+	AbstractReplay bool
 }
 
 type Options struct {
@@ -391,6 +392,7 @@ func (r *Run) runCase(hc harnessCase) *JobResult {
 	jr.Encoded, jr.Stubbed, jr.Modeled, jr.Stats = x.encoded, x.stubbed, x.modeled, x.stat
 	jr.NAssume = len(x.assumes)
 	jr.NVars = len(x.c.Vars)
+	jr.AbstractReplay = x.opts["replay"] == "abstract"
 	for k := range x.everStubbed {
 		jr.StubNames = append(jr.StubNames, k)
 	}
